@@ -908,13 +908,17 @@ fn assignable_index<'t>(ctx: Context<'t>, indexed: Assignable) -> ParseResult<'t
     let (ctx, skip_newlines) = ctx.push_skip_newlines(true);
     let mut ctx = expect!(ctx, T::LeftBracket, "Expected '[' when indexing");
 
-    let expr =
-        if let (_ctx, expr @ Expression { kind: ExpressionKind::Int(_), .. }) = expression(ctx)? {
-            ctx = _ctx; // assign to outer
-            expr
-        } else {
-            raise_syntax_error!(ctx, "Expected 'int' when parsing tuple indexing");
-        };
+    let (_ctx, mut expr) = expression(ctx)?;
+    // Redundant parentheses around the index don't change anything.
+    while let ExpressionKind::Parenthesis(inner) = expr.kind {
+        expr = *inner;
+    }
+    let expr = if let ExpressionKind::Int(_) = expr.kind {
+        ctx = _ctx; // assign to outer
+        expr
+    } else {
+        raise_syntax_error!(ctx, "Expected 'int' when parsing tuple indexing");
+    };
     let ctx = ctx.pop_skip_newlines(skip_newlines);
     let ctx = expect!(ctx, T::RightBracket, "Expected ']' after index");
 
